@@ -229,8 +229,9 @@ class DiskImageContentInjector(DiskImageWorker):
 
         listener.onBeginOfSide(self._currentSide)
         for src in args.sources:
-            dotPos = src.rfind(".")
-            fileName = os.path.basename(src.upper())
+            baseName = os.path.basename(src)
+            dotPos = baseName.rfind(".")
+            fileName = baseName.upper()
 
             # Either manage user decided change of side...
             if fileName == "--EOS":
@@ -248,9 +249,9 @@ class DiskImageContentInjector(DiskImageWorker):
                 continue
 
             if dotPos > -1:
-                fileName = os.path.basename(src[0:dotPos].upper())
-                fileExtension = cleanSrc[dotPos + 1 :].upper()
-                fileExtensionWithOption = src[dotPos + 1 :].upper()
+                fileName = baseName[0:dotPos].upper()
+                fileExtension = os.path.basename(cleanSrc)[dotPos + 1 :].upper()
+                fileExtensionWithOption = baseName[dotPos + 1 :].upper()
             else:
                 fileExtension = fileExtensionWithOption = ""
             if len(fileName) > 8:
